@@ -13,7 +13,7 @@ import os
 from common import CORPUS_DIR, call, shrink_list
 
 RULE = ("a universe of 12-20 objects (lanelets with sign/light references, traffic signs, traffic lights, intersections with "
-        "0-3 incoming elements, obstacles of the four roles, 1-3 lanelet networks with own members) whose ids are drawn from a "
+        "0-3 incoming elements (each with 0-2 incoming lanelets / straight successors taken mostly from the universe's lanelets, optional crossings), obstacles of the four roles, 1-3 lanelet networks with own members) whose ids are drawn from a "
         "pool of 6-12 numbers so that they collide; a history of up to 40 (thorough: up to 400) operations chosen online from "
         "add_objects (single / list / LaneletNetwork / wrong type), remove_obstacle|lanelet|traffic_sign|traffic_light|"
         "intersection (single and list forms), replace_lanelet_network, generate_object_id, biased towards removing contained "
@@ -35,7 +35,7 @@ REQUIRED_BUCKETS = [
     "op:rm_lanelet_list", "op:rm_sign", "op:rm_sign_list", "op:rm_light", "op:rm_light_list", "op:rm_inter",
     "op:rm_inter_list", "op:replace_net", "op:gen", "add-rejected", "add-rejected[inter]", "add-rejected[network]",
     "add[network]-over-nonempty", "list-add-partial", "re-add-after-remove", "re-add-after-list-remove[inter]",
-    "hanging-member-removed", "rm-not-contained", "gen-after-remove", "readd-checked-on-copy", "size>=6", "add-frame-checked",
+    "hanging-member-removed", "rm-not-contained", "gen-after-remove", "readd-checked-on-copy", "size>=6", "add-frame-checked", "lanelets-of-an-incoming-all-removed",
 ]
 WORKERS = {"quick": 1, "thorough": 8}
 
@@ -67,7 +67,10 @@ def build(spec, built):
     if k == "light":
         return TrafficLight(i, np.array([0.0, 0.0]))
     if k == "inter":
-        return Intersection(i, [IntersectionIncomingElement(j, incoming_lanelets=set()) for j in spec["incs"]])
+        lan = spec.get("inc_lanelets") or [[] for _ in spec["incs"]]
+        suc = spec.get("inc_succ") or [[] for _ in spec["incs"]]
+        return Intersection(i, [IntersectionIncomingElement(j, incoming_lanelets=set(a), successors_straight=set(b))
+                                for j, a, b in zip(spec["incs"], lan, suc)], crossings=set(spec.get("crossings", [])))
     if k == "static":
         return StaticObstacle(i, ObstacleType.PARKED_VEHICLE, Rectangle(2, 1),
                               InitialState(position=np.array([0.0, 0.0]), orientation=0.0, time_step=0))
@@ -182,6 +185,16 @@ def canon_model_state(st):
 
 # ------------------------------------------------------------------------------------------------ universe generation
 
+def lanelet_refs(r, incs, lanelet_ids, pid):
+    """References of an intersection to lanelets: incoming lanelets / straight successors per incoming element, crossings —
+    mostly ids of lanelets of the universe (so that removing lanelets can empty them), sometimes arbitrary pool ids."""
+    def some(p_empty):
+        if r.random() < p_empty or not lanelet_ids:
+            return []
+        return sorted(set(r.choice(lanelet_ids) if r.random() < 0.85 else pid() for _ in range(r.choice([1, 1, 2]))))
+    return {"inc_lanelets": [some(0.35) for _ in incs], "inc_succ": [some(0.6) for _ in incs], "crossings": some(0.7)}
+
+
 def gen_universe(r):
     pool = list(range(r.choice([6, 7, 8, 10, 12])))
     if r.random() < 0.3:
@@ -204,7 +217,7 @@ def gen_universe(r):
         incs = [pid() for _ in range(r.choice([0, 1, 1, 2, 2, 3]))]
         if r.random() < 0.75:  # mostly well-formed (distinct) incoming ids
             incs = list(dict.fromkeys(incs))
-        uni.append({"k": "inter", "id": pid(), "incs": incs})
+        uni.append({"k": "inter", "id": pid(), "incs": incs, **lanelet_refs(r, incs, [u["id"] for u in uni if u["k"] == "lanelet"], pid)})
     for k in OBST:
         for _ in range(r.choice([1, 1, 2])):
             uni.append({"k": k, "id": pid()})
@@ -221,7 +234,9 @@ def gen_universe(r):
         for k, cnt in (("sign", r.choice([0, 1, 1, 2])), ("light", r.choice([0, 0, 1])), ("inter", r.choice([0, 0, 1]))):
             for _ in range(cnt):
                 if k == "inter":
-                    uni.append({"k": k, "id": take(), "incs": [take() for _ in range(r.choice([0, 1, 2]))]})
+                    incs = [take() for _ in range(r.choice([0, 1, 2]))]
+                    uni.append({"k": k, "id": take(), "incs": incs,
+                                **lanelet_refs(r, incs, [uni[m]["id"] for m in members if uni[m]["k"] == "lanelet"], pid)})
                 else:
                     uni.append({"k": k, "id": take()})
                 members.append(len(uni) - 1)
@@ -385,6 +400,15 @@ class Run:
             site = {"rm_obstacle": "remove_obstacle", "rm_lanelet": "remove_lanelet", "rm_sign": "remove_traffic_sign",
                     "rm_light": "remove_traffic_light", "rm_inter": "remove_intersection"}[base] + ("[list]" if lst else "")
             ctx.tag("op:" + name)
+        # ---- does this step remove every incoming lanelet of an incoming element of a contained intersection?
+        gone_lanelets = None
+        if name.startswith("rm_lanelet") and op["refd"]:
+            gone_lanelets = {x.lanelet_id for x in args}
+        elif name == "replace_net":
+            gone_lanelets = {x.lanelet_id for x in before["cont"]["lanelet"]}
+        if gone_lanelets is not None and any(len(inc.incoming_lanelets) > 0 and set(inc.incoming_lanelets) <= gone_lanelets
+                                             for it in before["cont"]["inter"] for inc in it.incomings):
+            ctx.tag("lanelets-of-an-incoming-all-removed")
         # ---- run on the real code
         self.executed.append(op)
         res = call(f)
@@ -667,6 +691,14 @@ def choose_op(r, run):
         op = {"op": base + "_list", "os": os_}
     if base == "rm_lanelet":
         op["refd"] = r.random() < 0.85
+        # sometimes: exactly the incoming lanelets of one incoming element of a contained intersection
+        targets = [sorted(inc.incoming_lanelets) for it in cont["inter"] for inc in it.incomings if inc.incoming_lanelets]
+        if targets and r.random() < 0.3:
+            want = r.choice(targets)
+            idx = [i for i in groups["rm_lanelet"] if objs[i].lanelet_id in want]
+            if idx:
+                op = {"op": "rm_lanelet_list" if len(idx) > 1 or r.random() < 0.5 else "rm_lanelet", "refd": True}
+                op.update({"os": idx} if op["op"].endswith("_list") else {"o": idx[0]})
     return op
 
 
